@@ -130,13 +130,23 @@ package util
 //@ ensures !r0 ==> 0 <= r1 && r1 < len(bytes) && forall(k, 0, r1, bytes[k] < 128)
 
 // rcount(b): number of runes util.ToChars produces for the bytes b (uninterpreted; == len(b) for ASCII)
-//@ spec func rcount(b []byte) int extern
+// rcnt(b, i): number of characters decoded from b[i:] (one per utf8.DecodeRune step); rcount(b) = rcnt(b, 0)
+//@ spec func rcnt(b []byte, i int) int = i >= len(b) ? 0 : 1 + rcnt(b, i + (b[i] < 128 ? 1 : dsz(b[i:]))) decreases len(b) - i
+//@ spec func rcount(b []byte) int = rcnt(b, 0)
+
+// an ASCII stretch b[j-d:j) contributes one character per byte
+//@ lemma rc_ascii(b []byte, j int, d int) induction d
+//@ requires 0 <= d && d <= j && j <= len(b) && forall(k, j - d, j, b[k] < 128)
+//@ ensures rcnt(b, j - d) == d + rcnt(b, j)
 
 //@ func RunesToChars
 //@ ensures !result.inBytes && result.slice == asBytes(runes) && !result.trimLengthKnown && result.trimLength == 0 && result.Index == 0
 
 //@ func ToChars
 //@ requires len(bytes) < 2147483648
+//@ ensures len(result.slice) == rcount(bytes)
+//@ use @"if inBytes" rc_ascii(bytes, len(bytes), len(bytes))
+//@ use @"runes := make" rc_ascii(bytes, bytesUntil, bytesUntil)
 //@ ensures !result.trimLengthKnown && result.trimLength == 0 && result.Index == 0
 //@ ensures result.inBytes ==> result.slice == bytes && forall(k, 0, len(bytes), bytes[k] < 128)
 //@ ensures !result.inBytes ==> fresh(result.slice) && len(result.slice) <= len(bytes) && len(result.slice) >= 1 && forall(k, 0, len(result.slice), 0 <= asRunes(result.slice)[k] && asRunes(result.slice)[k] <= 1114111)
@@ -147,4 +157,5 @@ package util
 //@ loop 2
 //@   invariant bytesUntil <= i && i <= len(bytes) && bytesUntil <= len(runes) && len(runes) <= i && (i > bytesUntil ==> len(runes) >= 1) && fresh(runes) && bytesUntil < len(bytes)
 //@   invariant forall(k, 0, len(runes), 0 <= runes[k] && runes[k] <= 1114111)
+//@   invariant len(runes) + rcnt(bytes, i) == rcnt(bytes, 0)
 //@   decreases len(bytes) - i
